@@ -31,12 +31,24 @@ Definition use_ok (dim : Z) (u : use) : bool :=
   | USpline g _ k d _ dord => guard_ok g && zarg_ok PNumKnots k && zarg_ok PSplineDegree d && zarg_ok PDiffOrder dord
   | UWhit g _ dord => guard_ok g && zarg_ok PDiffOrder dord
   | UWhitOpaque _ | UNoCache _ | UOptimizer | UOverrideX => true
+  | UFullBasis => dim =? 2
   | UUnknown _ => false
   end.
 
 (* Model2D has no uniqueness validation: a 2-D method registered with require_unique_xz must fail the check *)
+(* a read of the lazy full basis is modelled as part of the unconditional basis-making spline setup that
+   precedes it in the same body *)
+Definition is_full (u : use) : bool := match u with UFullBasis => true | _ => false end.
+Definition is_main_spline (u : use) : bool := match u with USpline GAlways _ _ _ true _ => true | _ => false end.
+Fixpoint full_ok (seen : bool) (us : list use) : bool :=
+  match us with
+  | [] => true
+  | u :: r => (if is_full u then seen else true) && full_ok (seen || is_main_spline u) r
+  end.
+
 Definition minfo_ok (m : minfo) : bool :=
-  ((m_dim m =? 1) || ((m_dim m =? 2) && negb (m_unique m))) && forallb (use_ok (m_dim m)) (m_uses m).
+  ((m_dim m =? 1) || ((m_dim m =? 2) && negb (m_unique m))) && forallb (use_ok (m_dim m)) (m_uses m)
+  && full_ok false (m_uses m).
 
 Definition table_ok (t : list minfo) : bool := forallb minfo_ok t.
 
@@ -150,7 +162,7 @@ Definition wlen2 (w : warg) (a : args2) : option (Z * Z) :=
   | WArray => b_data a
   end.
 
-Definition setup_of2 (u : use) (a : args2) : list setup2 :=
+Definition setup_of2 (full : bool) (u : use) (a : args2) : list setup2 :=
   match u with
   | UPoly g w o cv cp mc =>
       if guard_on2 g a then
@@ -163,7 +175,8 @@ Definition setup_of2 (u : use) (a : args2) : list setup2 :=
         [SSpline2 (wlen2 w a)
                   (match k with ZConst v => v | _ => k1 end, match k with ZConst v => v | _ => k2 end,
                    match d with ZConst v => v | _ => d1 end, match d with ZConst v => v | _ => d2 end)
-                  mk (match dord with ZConst v => v | _ => b_dox a end) (match dord with ZConst v => v | _ => b_doz a end)]
+                  mk (match dord with ZConst v => v | _ => b_dox a end) (match dord with ZConst v => v | _ => b_doz a end)
+                  (full && mk)]
       else []
   | _ => []
   end.
@@ -171,7 +184,7 @@ Definition setup_of2 (u : use) (a : args2) : list setup2 :=
 Definition call_of2 (m : minfo) (a : args2) : op2 :=
   Call2 {| d_data := b_data a; d_dataok := b_dataok a;
            d_setups := if b_pre_raise a then [SRaise2]
-                       else flat_map (fun u => setup_of2 u a) (m_uses m) ++ (if b_post_raise a then [SRaise2] else []) |}.
+                       else flat_map (fun u => setup_of2 (existsb is_full (m_uses m)) u a) (m_uses m) ++ (if b_post_raise a then [SRaise2] else []) |}.
 
 Inductive item2 := IMethod2 (name : string) (a : args2) | ISolver2 (v : Z).
 
@@ -196,5 +209,33 @@ Fixpoint trace2_t (t : list minfo) (s : st2) (l : list item2) : option (list (li
                   | Some tr => Some ((observe2 s1 ++ [b2z (negb (is_none (o2_err out)))]) :: tr)
                   | None => None
                   end
+      end
+  end.
+
+(* 2-D groups (optimizer calls delegating to methods of the same Baseline2D object) *)
+Fixpoint inst2_all (t : list minfo) (l : list item2) : option (list op2) :=
+  match l with
+  | [] => Some []
+  | i :: l' => match inst2 t i, inst2_all t l' with Some o, Some r => Some (o :: r) | _, _ => None end
+  end.
+
+Fixpoint step_group2 (s : st2) (ops : list op2) : st2 * bool :=
+  match ops with
+  | [] => (s, false)
+  | o :: r => let '(s1, out) := step2 s o in
+              if is_none (o2_err out) then step_group2 s1 r else (s1, true)
+  end.
+
+Fixpoint trace2_g (t : list minfo) (s : st2) (gs : list (list item2)) : option (list (list Z)) :=
+  match gs with
+  | [] => Some []
+  | g :: r =>
+      match inst2_all t g with
+      | None => None
+      | Some ops => let '(s1, raised) := step_group2 s ops in
+                    match trace2_g t s1 r with
+                    | Some tr => Some ((observe2 s1 ++ [b2z raised]) :: tr)
+                    | None => None
+                    end
       end
   end.
